@@ -1720,8 +1720,9 @@ impl MutableArchive {
                 let het_pos = self.updated_het_pos.or(header.het_table_pos).unwrap_or(0);
                 let bet_pos = self.updated_bet_pos.or(header.bet_table_pos).unwrap_or(0);
 
-                self.file.write_all(&het_pos.to_le_bytes())?;
+                // BET table position comes first in the header, then HET
                 self.file.write_all(&bet_pos.to_le_bytes())?;
+                self.file.write_all(&het_pos.to_le_bytes())?;
             }
         }
 
